@@ -82,9 +82,18 @@ class Prepared:
     """real collectors of a case + their model encodings + the payload table"""
 
     def __init__(self, case):
-        from prometheus_client import metrics_core, samples
+        from prometheus_client import metrics_core, samples, metrics as pm
         import prometheus_client as pc
         self.case = case
+        self._saved_created = getattr(pm, '_use_created', True)
+        pm.enable_created_metrics()      # the model input of a built-in metric is its collect() with created series on
+        try:
+            self._build(case, pc, metrics_core, samples)
+        finally:
+            if not self._saved_created:
+                pm.disable_created_metrics()
+
+    def _build(self, case, pc, metrics_core, samples):
         self.log = []
         self.objs = {}          # id -> real collector
         self.desc = {}          # id -> [(name, type)] as describe() reports it, or None (no describe attribute)
@@ -188,7 +197,7 @@ class Prepared:
         return 'c06 hist %d %s %s %s %s' % (
             1 if self.ad else 0, enc_labels(case['ti']),
             ';'.join(self.enc_collector(c['id']) for c in case['collectors']) or '.',
-            ';'.join(enc_op(o) for o in ops) or '.',
+            ';'.join(enc_op(o) for o in ops if o[0] != 'c') or '.',
             ';'.join((','.join(hexs(n) for n in ns) or '_') for ns in namesets) or '.') + w
 
 
@@ -205,6 +214,8 @@ def enc_labels(l):
 def enc_op(o):
     if o[0] == 't':
         return 't' + enc_labels(o[1])
+    if o[0] == 'c':          # metrics.enable_created_metrics() / disable_created_metrics(): configuration, not a registry call
+        return 'c%d' % (1 if o[1] else 0)
     return '%s%d' % (o[0], o[1])
 
 
@@ -246,6 +257,18 @@ def run_history(prep, ops, fail, count=lambda k: None, after_step=None):
     `after_step(k, reg, snapshot)` is called once before the first call (k = 0) and after the k-th call."""
     from prometheus_client.registry import CollectorRegistry
     case = prep.case
+    from prometheus_client import metrics as pm
+    saved_created = getattr(pm, '_use_created', True)
+    try:
+        (pm.enable_created_metrics if case.get('created', True) else pm.disable_created_metrics)()
+        return _run_history(prep, ops, fail, count, after_step, pm)
+    finally:
+        (pm.enable_created_metrics if saved_created else pm.disable_created_metrics)()
+
+
+def _run_history(prep, ops, fail, count, after_step, pm):
+    from prometheus_client.registry import CollectorRegistry
+    case = prep.case
     reg = CollectorRegistry(auto_describe=prep.ad, target_info=copy.copy(case['ti']))
     obs = []
     tainted = False   # after an F6-class event (fixed in /repo; reported as a violation) the registry is corrupt: the oracle
@@ -254,6 +277,13 @@ def run_history(prep, ops, fail, count=lambda k: None, after_step=None):
     if after_step:
         after_step(0, None, None, reg, before)
     for step, op in enumerate(ops):
+        if op[0] == 'c':
+            # configuration switch, not a registry call: no observation; what collect() of a built-in metric yields changes,
+            # what anybody CLAIMS does not (the statement's table does not depend on the switch)
+            (pm.enable_created_metrics if op[1] else pm.disable_created_metrics)()
+            count('op-created-%s' % ('on' if op[1] else 'off'))
+            before = snapshot(prep, reg)
+            continue
         registered = before[1]                      # ids whose collect() the registry invokes, in order
         ti_set = bool(before[4])
         claimed = {}
@@ -379,7 +409,16 @@ def run_history(prep, ops, fail, count=lambda k: None, after_step=None):
     return obs, reg
 
 
-def compare_steps(reply, obs):
+def _no_created(fams):
+    out = []
+    for e in fams:
+        f = e.split(':')
+        ss = [] if f[4] == '_' else [x for x in f[4].split('+') if not bytes.fromhex(x.split('/')[0]).decode().endswith('_created')]
+        out.append(':'.join(f[:4] + ['+'.join(ss) or '_']))
+    return out
+
+
+def compare_steps(reply, obs, drop_created=False):
     """model observations (driver reply) vs real observations; returns None or a description"""
     parts = reply.split(' ')
     if parts[0] != 'ok' or len(parts) not in (3, 4):
@@ -401,7 +440,9 @@ def compare_steps(reply, obs):
         if canon_ti(m_ti) != o.ti:
             return 'step %d: target info model %s, implementation %s' % (i, m_ti, o.ti)
         fams = [] if m_fams == '.' else m_fams.split(',')
-        if fams != o.fams:
+        if drop_created:      # the created-series switch was used: the model's built-in collectors carry their _created samples,
+            fams = _no_created(fams)      # the real ones only while the switch is on; compare modulo those samples
+        if (fams != _no_created(o.fams)) if drop_created else (fams != o.fams):
             return 'step %d: collect() families model %r, implementation %r' % (i, fams, o.fams)
         calls = [] if m_calls == '.' else [int(x) for x in m_calls.split(',')]
         if calls != o.calls:
@@ -496,9 +537,12 @@ def random_case(rng, length):
     k = rng.randrange(3, 9)
     cs = [random_collector(rng, i + 1) for i in range(k)]
     ops = []
+    switch = rng.random() < 0.5       # half of the histories also toggle the created-series switch
     for _ in range(length):
         r = rng.random()
-        if r < 0.45:
+        if switch and rng.random() < 0.1:
+            ops.append(['c', rng.random() < 0.5])
+        elif r < 0.45:
             ops.append(['r', rng.choice(cs)['id']])
         elif r < 0.8:
             recent = [o[1] for o in ops[-6:] if o[0] == 'r']
@@ -508,10 +552,17 @@ def random_case(rng, length):
                 ops.append(['u', rng.choice(cs)['id']])
         else:
             ops.append(['t', random_labels(rng)])
-    return {'ad': rng.random() < 0.5, 'ti': random_labels(rng), 'collectors': cs, 'ops': ops}
+    return {'ad': rng.random() < 0.5, 'ti': random_labels(rng), 'collectors': cs, 'ops': ops,
+            'created': (rng.random() < 0.5) if switch else True}
 
 
 CORPUS = [
+    # the created-series switch does not change what anybody claims: x (counter) still reserves x_created while it is off
+    {'ad': False, 'ti': None, 'created': True, 'collectors': [
+        {'id': 1, 'kind': 'builtin', 'cls': 'Counter', 'name': 'x'}, {'id': 2, 'kind': 'builtin', 'cls': 'Gauge', 'name': 'x_created'},
+        custom(3, [('x', 'summary')]), custom(4, [('x_created', 'gauge')])],
+     'ops': [['c', False], ['r', 1], ['r', 2], ['r', 4], ['u', 1], ['r', 3], ['r', 4], ['c', True], ['r', 2], ['u', 3], ['c', False],
+             ['r', 2], ['r', 1]]},
     # auto_describe, no describe(), incomplete sample sets at registration: the claims are the TYPE's suffixes all the same
     {'ad': True, 'ti': None, 'collectors': [custom(1, [('x', 'counter')], describe=None, samples='first'),
                                             custom(2, [('x_created', 'gauge')]),
@@ -583,10 +634,14 @@ class Runner:
         if replies is not None:
             for (case, _, obs), rep in zip(self.pending, replies):
                 ctx.traces += 1
-                why = compare_steps(rep, obs)
+                why = compare_steps(rep, obs, drop_created=uses_switch(case))
                 if why:
                     ctx.diverge(why, case)
         self.pending = []
+
+
+def uses_switch(case):
+    return not case.get('created', True) or any(o[0] == 'c' for o in case['ops'])
 
 
 def sigs_of(case, ops):
@@ -602,9 +657,11 @@ def run(ctx):
     ctx.rule = ('histories of register/unregister/set_target_info: corpus (F6 witness, interleaved failed register/unregister/'
                 'target info, built-in classes); every history of length 3 over 9 clash-rich collectors (x counter, x_total '
                 'gauge, x_created gauge w/o describe, target info, target_info gauge, x histogram w/o describe, x_sum summary, '
-                'the F6 collector) x {register, unregister} + set_target_info(None/{}/labels), auto_describe off and on; random '
+                'the F6 collector) x {register, unregister} + set_target_info(None/{}/labels), auto_describe off and on; every '
+                'history of length 3 over {x counter, x_created gauge, built-in Histogram x, built-in Gauge x_created, undescribed '
+                'x summary} x {register, unregister} + disable/enable_created_metrics(); random '
                 'histories of length 40 over 3-8 collectors drawn from the 11-name alphabet x 8 types x describe present/absent/'
-                'disagreeing x built-in Counter/Gauge/Summary/Histogram/Info/Enum, initial target info None/{}/labels. '
+                'disagreeing x built-in Counter/Gauge/Summary/Histogram/Info/Enum, initial target info None/{}/labels, half of them with the created-series switch toggled at random points. '
                 'Non-trivial: at least one call raised and at least one collector was collected; distinct by the trace of '
                 '(outcome, collected ids, name-map keys, target info)')
     rn = Runner(ctx)
@@ -618,6 +675,18 @@ def run(ctx):
             rn.one({'ad': ad, 'ti': None, 'collectors': cs, 'ops': list(seq)}, shrink=False)
             n += 1
     ctx.extra['exhaustive_block'] = {'depth': depth, 'operations': len(ops), 'auto_describe': [False, True], 'histories': n}
+    # the configuration dimension: created series switched off / on at any point of the history
+    cs2 = [custom(1, [('x', 'counter')]), custom(2, [('x_created', 'gauge')]),
+           {'id': 3, 'kind': 'builtin', 'cls': 'Histogram', 'name': 'x'},
+           {'id': 4, 'kind': 'builtin', 'cls': 'Gauge', 'name': 'x_created'},
+           custom(5, [('x', 'summary')], describe=None)]
+    ops2 = [[k, c['id']] for c in cs2 for k in 'ru'] + [['c', False], ['c', True]]
+    n2 = 0
+    for ad in (False, True):
+        for seq in itertools.product(ops2, repeat=depth):
+            rn.one({'ad': ad, 'ti': None, 'created': True, 'collectors': cs2, 'ops': list(seq)}, shrink=False)
+            n2 += 1
+    ctx.extra['exhaustive_block_created_switch'] = {'depth': depth, 'operations': len(ops2), 'histories': n2}
     nrand = 350 if ctx.tier == 'quick' else 6000
     if ctx.broken:
         nrand *= 3          # a proof or the extraction broke: widen the failing-input search
